@@ -4,6 +4,7 @@ import (
 	"context"
 	"database/sql/driver"
 	"encoding/json"
+	"errors"
 	"flag"
 	"fmt"
 	"os"
@@ -51,7 +52,11 @@ func valueZoo() []any {
 		&nilPerson, &nilM, &nilPP, &nilInts, ptrCycle(), &nilOutcome,
 		0, one, &one, "str", &str, 1.5, true, 'x', uint8(3), uintptr(7), complex(1, 2), unsafe.Pointer(&one),
 		[2]int{1, 2}, &[2]int{1, 2}, make(chan int), func() {}, struct{}{}, &struct{}{},
-		struct{ A int `db:"a"` }{1}, &struct{ A int `db:"a"` }{1},
+		struct {
+			A int `db:"a"`
+		}{1}, &struct {
+			A int `db:"a"`
+		}{1},
 		zoo.Person{ID: 1}, p, pp, &pp, ifaceHoldingPtr, &ifaceHoldingPtr,
 		zoo.Emb{}, &zoo.Emb{}, zoo.EmbPtr{}, &zoo.EmbPtr{}, &zoo.EmbPtr{Loc: &zoo.Loc{Lat: 1}}, zoo.Deep{}, &zoo.Deep{},
 		zoo.Rec{}, &zoo.Rec{}, &zoo.Rec{Rec: &zoo.Rec{}}, zoo.Rec2{}, &zoo.Rec3{},
@@ -128,6 +133,8 @@ func ptrCycle() any {
 	return l
 }
 
+var errZooHang = errors.New("zoo: the following call hung")
+
 func runZoo(args []string) {
 	fs := flag.NewFlagSet("zoo", flag.ExitOnError)
 	n := fs.Int("n", 1500, "number of random query/sample combinations in addition to the systematic sweep")
@@ -170,6 +177,10 @@ func runZoo(args []string) {
 		if p != "" {
 			rep.addCrash(Finding{Case: map[string]any{"position": pos, "case": desc}, Kind: "crash", Detail: "panic: " + p})
 			dist["panics"]++
+		} else if err == errZooHang {
+			rep.addCrash(Finding{Case: map[string]any{"position": pos, "case": desc}, Kind: "crash",
+				Detail: "hang: after this call returned, the next ordinary call on the same DB (one pooled connection, no deadline) would never return"})
+			dist["hangs"]++
 		} else if err != nil {
 			dist["errors"]++
 		} else {
@@ -184,9 +195,28 @@ func runZoo(args []string) {
 			sc.Rows = append(sc.Rows, []driver.Value{int64(i + 1), "x", int64(3), nil})
 		}
 		st.SetScript(sc)
+		// a single pooled connection: a call that returns without giving it back makes the
+		// next call wait for ever
+		sqldb.SetMaxOpenConns(1)
 		return sqlair.NewDB(sqldb), func() { sqldb.Close() }
 	}
 	ctx := context.Background()
+	// follow runs one more ordinary call on the DB after the call under test: it must
+	// return. (It is given a deadline instead of a watchdog; a deadline that expires means
+	// the call would have hung.)
+	hangs := 0
+	follow := func(db *sqlair.DB, stmt *sqlair.Statement, args []any, err error) error {
+		if hangs >= 3 {
+			return err
+		}
+		c2, cancel := context.WithTimeout(ctx, 2*time.Second)
+		defer cancel()
+		if e2 := db.Query(c2, stmt, args...).Run(); errors.Is(e2, context.DeadlineExceeded) {
+			hangs++
+			return errZooHang
+		}
+		return err
+	}
 
 	// 1. Prepare: every zoo value as the only sample, and appended to valid samples
 	for _, s := range stmts {
@@ -211,12 +241,12 @@ func runZoo(args []string) {
 			check("Query(arg)", s.q+" / "+vdesc(v), func() error {
 				db, cl := newDB(1)
 				defer cl()
-				return db.Query(ctx, stmt, v).Run()
+				return follow(db, stmt, s.args, db.Query(ctx, stmt, v).Run())
 			})
 			check("Query(args+arg)", s.q+" / "+vdesc(v), func() error {
 				db, cl := newDB(1)
 				defer cl()
-				return db.Query(ctx, stmt, append(append([]any{}, s.args...), v)...).Run()
+				return follow(db, stmt, s.args, db.Query(ctx, stmt, append(append([]any{}, s.args...), v)...).Run())
 			})
 			for i := range s.args {
 				i := i
@@ -225,23 +255,23 @@ func runZoo(args []string) {
 					defer cl()
 					a := append([]any{}, s.args...)
 					a[i] = v
-					return db.Query(ctx, stmt, a...).Run()
+					return follow(db, stmt, s.args, db.Query(ctx, stmt, a...).Run())
 				})
 			}
 			check("Get(output)", s.q+" / "+vdesc(v), func() error {
 				db, cl := newDB(1)
 				defer cl()
-				return db.Query(ctx, stmt, s.args...).Get(v)
+				return follow(db, stmt, s.args, db.Query(ctx, stmt, s.args...).Get(v))
 			})
 			check("Get(outcome,output)", s.q+" / "+vdesc(v), func() error {
 				db, cl := newDB(1)
 				defer cl()
-				return db.Query(ctx, stmt, s.args...).Get(&sqlair.Outcome{}, v)
+				return follow(db, stmt, s.args, db.Query(ctx, stmt, s.args...).Get(&sqlair.Outcome{}, v))
 			})
 			check("GetAll(slice)", s.q+" / "+vdesc(v), func() error {
 				db, cl := newDB(2)
 				defer cl()
-				return db.Query(ctx, stmt, s.args...).GetAll(v)
+				return follow(db, stmt, s.args, db.Query(ctx, stmt, s.args...).GetAll(v))
 			})
 			check("Iterator.Get(output)", s.q+" / "+vdesc(v), func() error {
 				db, cl := newDB(2)
@@ -258,10 +288,10 @@ func runZoo(args []string) {
 				e4 := it.Get(v)
 				for _, e := range []error{e1, e2, e3, e4} {
 					if e != nil {
-						return e
+						return follow(db, stmt, s.args, e)
 					}
 				}
-				return nil
+				return follow(db, stmt, s.args, nil)
 			})
 		}
 		// random pairs of outputs
@@ -270,12 +300,12 @@ func runZoo(args []string) {
 			check("Get(output,output)", s.q+" / "+vdesc(a)+" , "+vdesc(b), func() error {
 				db, cl := newDB(1)
 				defer cl()
-				return db.Query(ctx, stmt, s.args...).Get(a, b)
+				return follow(db, stmt, s.args, db.Query(ctx, stmt, s.args...).Get(a, b))
 			})
 			check("GetAll(slice,slice)", s.q+" / "+vdesc(a)+" , "+vdesc(b), func() error {
 				db, cl := newDB(2)
 				defer cl()
-				return db.Query(ctx, stmt, s.args...).GetAll(a, b)
+				return follow(db, stmt, s.args, db.Query(ctx, stmt, s.args...).GetAll(a, b))
 			})
 		}
 	}
